@@ -111,46 +111,48 @@ Record cst := mkC {
   wlog : list item;   (* GHOST: text lines accepted by write closures while output was not discarded, in order *)
   cycle_err : bool;   (* a frame error was seen in the current cycle: the remaining bars are pushed back untouched *)
   out_pending : bool;   (* a frame was handed to the output writer and its Write call has not been seen yet *)
-  matrix : list Z   (* GHOST: the bars the width-sync matrices were last built from (heap at the last rebuild) *)
+  matrix : list Z;   (* GHOST: the bars the width-sync matrices were last built from (heap at the last rebuild) *)
+  final_done : bool   (* a render cycle has ended (frame or error) since the container goroutine saw done *)
 }.
 
-Definition cs_bars (s : cst) v : cst := mkC v (heap s) (hsync s) (hlen s) (hdirty s) (iterating s) (popped s) (fifo s) (queue s) (pop_prio s) (id_count s) (pop_mode s) (auto_mode s) (ph s) (cwbuf s) (delayed s) (pend_writes s) (pend_fix s) (outframes s) (cancelled s) (done_seen s) (ended s) (errored s) (ct_exited s) (cycle_pops s) (cycle_flushed s) (iter_heap s) (iter_dirty s) (retired s) (wlog s) (cycle_err s) (out_pending s) (matrix s).
-Definition cs_heap (s : cst) v : cst := mkC (bars s) v (hsync s) (hlen s) (hdirty s) (iterating s) (popped s) (fifo s) (queue s) (pop_prio s) (id_count s) (pop_mode s) (auto_mode s) (ph s) (cwbuf s) (delayed s) (pend_writes s) (pend_fix s) (outframes s) (cancelled s) (done_seen s) (ended s) (errored s) (ct_exited s) (cycle_pops s) (cycle_flushed s) (iter_heap s) (iter_dirty s) (retired s) (wlog s) (cycle_err s) (out_pending s) (matrix s).
-Definition cs_hsync (s : cst) v : cst := mkC (bars s) (heap s) v (hlen s) (hdirty s) (iterating s) (popped s) (fifo s) (queue s) (pop_prio s) (id_count s) (pop_mode s) (auto_mode s) (ph s) (cwbuf s) (delayed s) (pend_writes s) (pend_fix s) (outframes s) (cancelled s) (done_seen s) (ended s) (errored s) (ct_exited s) (cycle_pops s) (cycle_flushed s) (iter_heap s) (iter_dirty s) (retired s) (wlog s) (cycle_err s) (out_pending s) (matrix s).
-Definition cs_hlen (s : cst) v : cst := mkC (bars s) (heap s) (hsync s) v (hdirty s) (iterating s) (popped s) (fifo s) (queue s) (pop_prio s) (id_count s) (pop_mode s) (auto_mode s) (ph s) (cwbuf s) (delayed s) (pend_writes s) (pend_fix s) (outframes s) (cancelled s) (done_seen s) (ended s) (errored s) (ct_exited s) (cycle_pops s) (cycle_flushed s) (iter_heap s) (iter_dirty s) (retired s) (wlog s) (cycle_err s) (out_pending s) (matrix s).
-Definition cs_hdirty (s : cst) v : cst := mkC (bars s) (heap s) (hsync s) (hlen s) v (iterating s) (popped s) (fifo s) (queue s) (pop_prio s) (id_count s) (pop_mode s) (auto_mode s) (ph s) (cwbuf s) (delayed s) (pend_writes s) (pend_fix s) (outframes s) (cancelled s) (done_seen s) (ended s) (errored s) (ct_exited s) (cycle_pops s) (cycle_flushed s) (iter_heap s) (iter_dirty s) (retired s) (wlog s) (cycle_err s) (out_pending s) (matrix s).
-Definition cs_iterating (s : cst) v : cst := mkC (bars s) (heap s) (hsync s) (hlen s) (hdirty s) v (popped s) (fifo s) (queue s) (pop_prio s) (id_count s) (pop_mode s) (auto_mode s) (ph s) (cwbuf s) (delayed s) (pend_writes s) (pend_fix s) (outframes s) (cancelled s) (done_seen s) (ended s) (errored s) (ct_exited s) (cycle_pops s) (cycle_flushed s) (iter_heap s) (iter_dirty s) (retired s) (wlog s) (cycle_err s) (out_pending s) (matrix s).
-Definition cs_popped (s : cst) v : cst := mkC (bars s) (heap s) (hsync s) (hlen s) (hdirty s) (iterating s) v (fifo s) (queue s) (pop_prio s) (id_count s) (pop_mode s) (auto_mode s) (ph s) (cwbuf s) (delayed s) (pend_writes s) (pend_fix s) (outframes s) (cancelled s) (done_seen s) (ended s) (errored s) (ct_exited s) (cycle_pops s) (cycle_flushed s) (iter_heap s) (iter_dirty s) (retired s) (wlog s) (cycle_err s) (out_pending s) (matrix s).
-Definition cs_fifo (s : cst) v : cst := mkC (bars s) (heap s) (hsync s) (hlen s) (hdirty s) (iterating s) (popped s) v (queue s) (pop_prio s) (id_count s) (pop_mode s) (auto_mode s) (ph s) (cwbuf s) (delayed s) (pend_writes s) (pend_fix s) (outframes s) (cancelled s) (done_seen s) (ended s) (errored s) (ct_exited s) (cycle_pops s) (cycle_flushed s) (iter_heap s) (iter_dirty s) (retired s) (wlog s) (cycle_err s) (out_pending s) (matrix s).
-Definition cs_queue (s : cst) v : cst := mkC (bars s) (heap s) (hsync s) (hlen s) (hdirty s) (iterating s) (popped s) (fifo s) v (pop_prio s) (id_count s) (pop_mode s) (auto_mode s) (ph s) (cwbuf s) (delayed s) (pend_writes s) (pend_fix s) (outframes s) (cancelled s) (done_seen s) (ended s) (errored s) (ct_exited s) (cycle_pops s) (cycle_flushed s) (iter_heap s) (iter_dirty s) (retired s) (wlog s) (cycle_err s) (out_pending s) (matrix s).
-Definition cs_pop_prio (s : cst) v : cst := mkC (bars s) (heap s) (hsync s) (hlen s) (hdirty s) (iterating s) (popped s) (fifo s) (queue s) v (id_count s) (pop_mode s) (auto_mode s) (ph s) (cwbuf s) (delayed s) (pend_writes s) (pend_fix s) (outframes s) (cancelled s) (done_seen s) (ended s) (errored s) (ct_exited s) (cycle_pops s) (cycle_flushed s) (iter_heap s) (iter_dirty s) (retired s) (wlog s) (cycle_err s) (out_pending s) (matrix s).
-Definition cs_id_count (s : cst) v : cst := mkC (bars s) (heap s) (hsync s) (hlen s) (hdirty s) (iterating s) (popped s) (fifo s) (queue s) (pop_prio s) v (pop_mode s) (auto_mode s) (ph s) (cwbuf s) (delayed s) (pend_writes s) (pend_fix s) (outframes s) (cancelled s) (done_seen s) (ended s) (errored s) (ct_exited s) (cycle_pops s) (cycle_flushed s) (iter_heap s) (iter_dirty s) (retired s) (wlog s) (cycle_err s) (out_pending s) (matrix s).
-Definition cs_pop_mode (s : cst) v : cst := mkC (bars s) (heap s) (hsync s) (hlen s) (hdirty s) (iterating s) (popped s) (fifo s) (queue s) (pop_prio s) (id_count s) v (auto_mode s) (ph s) (cwbuf s) (delayed s) (pend_writes s) (pend_fix s) (outframes s) (cancelled s) (done_seen s) (ended s) (errored s) (ct_exited s) (cycle_pops s) (cycle_flushed s) (iter_heap s) (iter_dirty s) (retired s) (wlog s) (cycle_err s) (out_pending s) (matrix s).
-Definition cs_auto_mode (s : cst) v : cst := mkC (bars s) (heap s) (hsync s) (hlen s) (hdirty s) (iterating s) (popped s) (fifo s) (queue s) (pop_prio s) (id_count s) (pop_mode s) v (ph s) (cwbuf s) (delayed s) (pend_writes s) (pend_fix s) (outframes s) (cancelled s) (done_seen s) (ended s) (errored s) (ct_exited s) (cycle_pops s) (cycle_flushed s) (iter_heap s) (iter_dirty s) (retired s) (wlog s) (cycle_err s) (out_pending s) (matrix s).
-Definition cs_ph (s : cst) v : cst := mkC (bars s) (heap s) (hsync s) (hlen s) (hdirty s) (iterating s) (popped s) (fifo s) (queue s) (pop_prio s) (id_count s) (pop_mode s) (auto_mode s) v (cwbuf s) (delayed s) (pend_writes s) (pend_fix s) (outframes s) (cancelled s) (done_seen s) (ended s) (errored s) (ct_exited s) (cycle_pops s) (cycle_flushed s) (iter_heap s) (iter_dirty s) (retired s) (wlog s) (cycle_err s) (out_pending s) (matrix s).
-Definition cs_cwbuf (s : cst) v : cst := mkC (bars s) (heap s) (hsync s) (hlen s) (hdirty s) (iterating s) (popped s) (fifo s) (queue s) (pop_prio s) (id_count s) (pop_mode s) (auto_mode s) (ph s) v (delayed s) (pend_writes s) (pend_fix s) (outframes s) (cancelled s) (done_seen s) (ended s) (errored s) (ct_exited s) (cycle_pops s) (cycle_flushed s) (iter_heap s) (iter_dirty s) (retired s) (wlog s) (cycle_err s) (out_pending s) (matrix s).
-Definition cs_delayed (s : cst) v : cst := mkC (bars s) (heap s) (hsync s) (hlen s) (hdirty s) (iterating s) (popped s) (fifo s) (queue s) (pop_prio s) (id_count s) (pop_mode s) (auto_mode s) (ph s) (cwbuf s) v (pend_writes s) (pend_fix s) (outframes s) (cancelled s) (done_seen s) (ended s) (errored s) (ct_exited s) (cycle_pops s) (cycle_flushed s) (iter_heap s) (iter_dirty s) (retired s) (wlog s) (cycle_err s) (out_pending s) (matrix s).
-Definition cs_pend_writes (s : cst) v : cst := mkC (bars s) (heap s) (hsync s) (hlen s) (hdirty s) (iterating s) (popped s) (fifo s) (queue s) (pop_prio s) (id_count s) (pop_mode s) (auto_mode s) (ph s) (cwbuf s) (delayed s) v (pend_fix s) (outframes s) (cancelled s) (done_seen s) (ended s) (errored s) (ct_exited s) (cycle_pops s) (cycle_flushed s) (iter_heap s) (iter_dirty s) (retired s) (wlog s) (cycle_err s) (out_pending s) (matrix s).
-Definition cs_pend_fix (s : cst) v : cst := mkC (bars s) (heap s) (hsync s) (hlen s) (hdirty s) (iterating s) (popped s) (fifo s) (queue s) (pop_prio s) (id_count s) (pop_mode s) (auto_mode s) (ph s) (cwbuf s) (delayed s) (pend_writes s) v (outframes s) (cancelled s) (done_seen s) (ended s) (errored s) (ct_exited s) (cycle_pops s) (cycle_flushed s) (iter_heap s) (iter_dirty s) (retired s) (wlog s) (cycle_err s) (out_pending s) (matrix s).
-Definition cs_outframes (s : cst) v : cst := mkC (bars s) (heap s) (hsync s) (hlen s) (hdirty s) (iterating s) (popped s) (fifo s) (queue s) (pop_prio s) (id_count s) (pop_mode s) (auto_mode s) (ph s) (cwbuf s) (delayed s) (pend_writes s) (pend_fix s) v (cancelled s) (done_seen s) (ended s) (errored s) (ct_exited s) (cycle_pops s) (cycle_flushed s) (iter_heap s) (iter_dirty s) (retired s) (wlog s) (cycle_err s) (out_pending s) (matrix s).
-Definition cs_cancelled (s : cst) v : cst := mkC (bars s) (heap s) (hsync s) (hlen s) (hdirty s) (iterating s) (popped s) (fifo s) (queue s) (pop_prio s) (id_count s) (pop_mode s) (auto_mode s) (ph s) (cwbuf s) (delayed s) (pend_writes s) (pend_fix s) (outframes s) v (done_seen s) (ended s) (errored s) (ct_exited s) (cycle_pops s) (cycle_flushed s) (iter_heap s) (iter_dirty s) (retired s) (wlog s) (cycle_err s) (out_pending s) (matrix s).
-Definition cs_done_seen (s : cst) v : cst := mkC (bars s) (heap s) (hsync s) (hlen s) (hdirty s) (iterating s) (popped s) (fifo s) (queue s) (pop_prio s) (id_count s) (pop_mode s) (auto_mode s) (ph s) (cwbuf s) (delayed s) (pend_writes s) (pend_fix s) (outframes s) (cancelled s) v (ended s) (errored s) (ct_exited s) (cycle_pops s) (cycle_flushed s) (iter_heap s) (iter_dirty s) (retired s) (wlog s) (cycle_err s) (out_pending s) (matrix s).
-Definition cs_ended (s : cst) v : cst := mkC (bars s) (heap s) (hsync s) (hlen s) (hdirty s) (iterating s) (popped s) (fifo s) (queue s) (pop_prio s) (id_count s) (pop_mode s) (auto_mode s) (ph s) (cwbuf s) (delayed s) (pend_writes s) (pend_fix s) (outframes s) (cancelled s) (done_seen s) v (errored s) (ct_exited s) (cycle_pops s) (cycle_flushed s) (iter_heap s) (iter_dirty s) (retired s) (wlog s) (cycle_err s) (out_pending s) (matrix s).
-Definition cs_errored (s : cst) v : cst := mkC (bars s) (heap s) (hsync s) (hlen s) (hdirty s) (iterating s) (popped s) (fifo s) (queue s) (pop_prio s) (id_count s) (pop_mode s) (auto_mode s) (ph s) (cwbuf s) (delayed s) (pend_writes s) (pend_fix s) (outframes s) (cancelled s) (done_seen s) (ended s) v (ct_exited s) (cycle_pops s) (cycle_flushed s) (iter_heap s) (iter_dirty s) (retired s) (wlog s) (cycle_err s) (out_pending s) (matrix s).
-Definition cs_ct_exited (s : cst) v : cst := mkC (bars s) (heap s) (hsync s) (hlen s) (hdirty s) (iterating s) (popped s) (fifo s) (queue s) (pop_prio s) (id_count s) (pop_mode s) (auto_mode s) (ph s) (cwbuf s) (delayed s) (pend_writes s) (pend_fix s) (outframes s) (cancelled s) (done_seen s) (ended s) (errored s) v (cycle_pops s) (cycle_flushed s) (iter_heap s) (iter_dirty s) (retired s) (wlog s) (cycle_err s) (out_pending s) (matrix s).
-Definition cs_cycle_pops (s : cst) v : cst := mkC (bars s) (heap s) (hsync s) (hlen s) (hdirty s) (iterating s) (popped s) (fifo s) (queue s) (pop_prio s) (id_count s) (pop_mode s) (auto_mode s) (ph s) (cwbuf s) (delayed s) (pend_writes s) (pend_fix s) (outframes s) (cancelled s) (done_seen s) (ended s) (errored s) (ct_exited s) v (cycle_flushed s) (iter_heap s) (iter_dirty s) (retired s) (wlog s) (cycle_err s) (out_pending s) (matrix s).
-Definition cs_cycle_flushed (s : cst) v : cst := mkC (bars s) (heap s) (hsync s) (hlen s) (hdirty s) (iterating s) (popped s) (fifo s) (queue s) (pop_prio s) (id_count s) (pop_mode s) (auto_mode s) (ph s) (cwbuf s) (delayed s) (pend_writes s) (pend_fix s) (outframes s) (cancelled s) (done_seen s) (ended s) (errored s) (ct_exited s) (cycle_pops s) v (iter_heap s) (iter_dirty s) (retired s) (wlog s) (cycle_err s) (out_pending s) (matrix s).
-Definition cs_iter_heap (s : cst) v : cst := mkC (bars s) (heap s) (hsync s) (hlen s) (hdirty s) (iterating s) (popped s) (fifo s) (queue s) (pop_prio s) (id_count s) (pop_mode s) (auto_mode s) (ph s) (cwbuf s) (delayed s) (pend_writes s) (pend_fix s) (outframes s) (cancelled s) (done_seen s) (ended s) (errored s) (ct_exited s) (cycle_pops s) (cycle_flushed s) v (iter_dirty s) (retired s) (wlog s) (cycle_err s) (out_pending s) (matrix s).
-Definition cs_iter_dirty (s : cst) v : cst := mkC (bars s) (heap s) (hsync s) (hlen s) (hdirty s) (iterating s) (popped s) (fifo s) (queue s) (pop_prio s) (id_count s) (pop_mode s) (auto_mode s) (ph s) (cwbuf s) (delayed s) (pend_writes s) (pend_fix s) (outframes s) (cancelled s) (done_seen s) (ended s) (errored s) (ct_exited s) (cycle_pops s) (cycle_flushed s) (iter_heap s) v (retired s) (wlog s) (cycle_err s) (out_pending s) (matrix s).
-Definition cs_retired (s : cst) v : cst := mkC (bars s) (heap s) (hsync s) (hlen s) (hdirty s) (iterating s) (popped s) (fifo s) (queue s) (pop_prio s) (id_count s) (pop_mode s) (auto_mode s) (ph s) (cwbuf s) (delayed s) (pend_writes s) (pend_fix s) (outframes s) (cancelled s) (done_seen s) (ended s) (errored s) (ct_exited s) (cycle_pops s) (cycle_flushed s) (iter_heap s) (iter_dirty s) v (wlog s) (cycle_err s) (out_pending s) (matrix s).
-Definition cs_wlog (s : cst) v : cst := mkC (bars s) (heap s) (hsync s) (hlen s) (hdirty s) (iterating s) (popped s) (fifo s) (queue s) (pop_prio s) (id_count s) (pop_mode s) (auto_mode s) (ph s) (cwbuf s) (delayed s) (pend_writes s) (pend_fix s) (outframes s) (cancelled s) (done_seen s) (ended s) (errored s) (ct_exited s) (cycle_pops s) (cycle_flushed s) (iter_heap s) (iter_dirty s) (retired s) v (cycle_err s) (out_pending s) (matrix s).
-Definition cs_cycle_err (s : cst) v : cst := mkC (bars s) (heap s) (hsync s) (hlen s) (hdirty s) (iterating s) (popped s) (fifo s) (queue s) (pop_prio s) (id_count s) (pop_mode s) (auto_mode s) (ph s) (cwbuf s) (delayed s) (pend_writes s) (pend_fix s) (outframes s) (cancelled s) (done_seen s) (ended s) (errored s) (ct_exited s) (cycle_pops s) (cycle_flushed s) (iter_heap s) (iter_dirty s) (retired s) (wlog s) v (out_pending s) (matrix s).
-Definition cs_out_pending (s : cst) v : cst := mkC (bars s) (heap s) (hsync s) (hlen s) (hdirty s) (iterating s) (popped s) (fifo s) (queue s) (pop_prio s) (id_count s) (pop_mode s) (auto_mode s) (ph s) (cwbuf s) (delayed s) (pend_writes s) (pend_fix s) (outframes s) (cancelled s) (done_seen s) (ended s) (errored s) (ct_exited s) (cycle_pops s) (cycle_flushed s) (iter_heap s) (iter_dirty s) (retired s) (wlog s) (cycle_err s) v (matrix s).
-Definition cs_matrix (s : cst) v : cst := mkC (bars s) (heap s) (hsync s) (hlen s) (hdirty s) (iterating s) (popped s) (fifo s) (queue s) (pop_prio s) (id_count s) (pop_mode s) (auto_mode s) (ph s) (cwbuf s) (delayed s) (pend_writes s) (pend_fix s) (outframes s) (cancelled s) (done_seen s) (ended s) (errored s) (ct_exited s) (cycle_pops s) (cycle_flushed s) (iter_heap s) (iter_dirty s) (retired s) (wlog s) (cycle_err s) (out_pending s) v.
+Definition cs_bars (s : cst) v : cst := mkC v (heap s) (hsync s) (hlen s) (hdirty s) (iterating s) (popped s) (fifo s) (queue s) (pop_prio s) (id_count s) (pop_mode s) (auto_mode s) (ph s) (cwbuf s) (delayed s) (pend_writes s) (pend_fix s) (outframes s) (cancelled s) (done_seen s) (ended s) (errored s) (ct_exited s) (cycle_pops s) (cycle_flushed s) (iter_heap s) (iter_dirty s) (retired s) (wlog s) (cycle_err s) (out_pending s) (matrix s) (final_done s).
+Definition cs_heap (s : cst) v : cst := mkC (bars s) v (hsync s) (hlen s) (hdirty s) (iterating s) (popped s) (fifo s) (queue s) (pop_prio s) (id_count s) (pop_mode s) (auto_mode s) (ph s) (cwbuf s) (delayed s) (pend_writes s) (pend_fix s) (outframes s) (cancelled s) (done_seen s) (ended s) (errored s) (ct_exited s) (cycle_pops s) (cycle_flushed s) (iter_heap s) (iter_dirty s) (retired s) (wlog s) (cycle_err s) (out_pending s) (matrix s) (final_done s).
+Definition cs_hsync (s : cst) v : cst := mkC (bars s) (heap s) v (hlen s) (hdirty s) (iterating s) (popped s) (fifo s) (queue s) (pop_prio s) (id_count s) (pop_mode s) (auto_mode s) (ph s) (cwbuf s) (delayed s) (pend_writes s) (pend_fix s) (outframes s) (cancelled s) (done_seen s) (ended s) (errored s) (ct_exited s) (cycle_pops s) (cycle_flushed s) (iter_heap s) (iter_dirty s) (retired s) (wlog s) (cycle_err s) (out_pending s) (matrix s) (final_done s).
+Definition cs_hlen (s : cst) v : cst := mkC (bars s) (heap s) (hsync s) v (hdirty s) (iterating s) (popped s) (fifo s) (queue s) (pop_prio s) (id_count s) (pop_mode s) (auto_mode s) (ph s) (cwbuf s) (delayed s) (pend_writes s) (pend_fix s) (outframes s) (cancelled s) (done_seen s) (ended s) (errored s) (ct_exited s) (cycle_pops s) (cycle_flushed s) (iter_heap s) (iter_dirty s) (retired s) (wlog s) (cycle_err s) (out_pending s) (matrix s) (final_done s).
+Definition cs_hdirty (s : cst) v : cst := mkC (bars s) (heap s) (hsync s) (hlen s) v (iterating s) (popped s) (fifo s) (queue s) (pop_prio s) (id_count s) (pop_mode s) (auto_mode s) (ph s) (cwbuf s) (delayed s) (pend_writes s) (pend_fix s) (outframes s) (cancelled s) (done_seen s) (ended s) (errored s) (ct_exited s) (cycle_pops s) (cycle_flushed s) (iter_heap s) (iter_dirty s) (retired s) (wlog s) (cycle_err s) (out_pending s) (matrix s) (final_done s).
+Definition cs_iterating (s : cst) v : cst := mkC (bars s) (heap s) (hsync s) (hlen s) (hdirty s) v (popped s) (fifo s) (queue s) (pop_prio s) (id_count s) (pop_mode s) (auto_mode s) (ph s) (cwbuf s) (delayed s) (pend_writes s) (pend_fix s) (outframes s) (cancelled s) (done_seen s) (ended s) (errored s) (ct_exited s) (cycle_pops s) (cycle_flushed s) (iter_heap s) (iter_dirty s) (retired s) (wlog s) (cycle_err s) (out_pending s) (matrix s) (final_done s).
+Definition cs_popped (s : cst) v : cst := mkC (bars s) (heap s) (hsync s) (hlen s) (hdirty s) (iterating s) v (fifo s) (queue s) (pop_prio s) (id_count s) (pop_mode s) (auto_mode s) (ph s) (cwbuf s) (delayed s) (pend_writes s) (pend_fix s) (outframes s) (cancelled s) (done_seen s) (ended s) (errored s) (ct_exited s) (cycle_pops s) (cycle_flushed s) (iter_heap s) (iter_dirty s) (retired s) (wlog s) (cycle_err s) (out_pending s) (matrix s) (final_done s).
+Definition cs_fifo (s : cst) v : cst := mkC (bars s) (heap s) (hsync s) (hlen s) (hdirty s) (iterating s) (popped s) v (queue s) (pop_prio s) (id_count s) (pop_mode s) (auto_mode s) (ph s) (cwbuf s) (delayed s) (pend_writes s) (pend_fix s) (outframes s) (cancelled s) (done_seen s) (ended s) (errored s) (ct_exited s) (cycle_pops s) (cycle_flushed s) (iter_heap s) (iter_dirty s) (retired s) (wlog s) (cycle_err s) (out_pending s) (matrix s) (final_done s).
+Definition cs_queue (s : cst) v : cst := mkC (bars s) (heap s) (hsync s) (hlen s) (hdirty s) (iterating s) (popped s) (fifo s) v (pop_prio s) (id_count s) (pop_mode s) (auto_mode s) (ph s) (cwbuf s) (delayed s) (pend_writes s) (pend_fix s) (outframes s) (cancelled s) (done_seen s) (ended s) (errored s) (ct_exited s) (cycle_pops s) (cycle_flushed s) (iter_heap s) (iter_dirty s) (retired s) (wlog s) (cycle_err s) (out_pending s) (matrix s) (final_done s).
+Definition cs_pop_prio (s : cst) v : cst := mkC (bars s) (heap s) (hsync s) (hlen s) (hdirty s) (iterating s) (popped s) (fifo s) (queue s) v (id_count s) (pop_mode s) (auto_mode s) (ph s) (cwbuf s) (delayed s) (pend_writes s) (pend_fix s) (outframes s) (cancelled s) (done_seen s) (ended s) (errored s) (ct_exited s) (cycle_pops s) (cycle_flushed s) (iter_heap s) (iter_dirty s) (retired s) (wlog s) (cycle_err s) (out_pending s) (matrix s) (final_done s).
+Definition cs_id_count (s : cst) v : cst := mkC (bars s) (heap s) (hsync s) (hlen s) (hdirty s) (iterating s) (popped s) (fifo s) (queue s) (pop_prio s) v (pop_mode s) (auto_mode s) (ph s) (cwbuf s) (delayed s) (pend_writes s) (pend_fix s) (outframes s) (cancelled s) (done_seen s) (ended s) (errored s) (ct_exited s) (cycle_pops s) (cycle_flushed s) (iter_heap s) (iter_dirty s) (retired s) (wlog s) (cycle_err s) (out_pending s) (matrix s) (final_done s).
+Definition cs_pop_mode (s : cst) v : cst := mkC (bars s) (heap s) (hsync s) (hlen s) (hdirty s) (iterating s) (popped s) (fifo s) (queue s) (pop_prio s) (id_count s) v (auto_mode s) (ph s) (cwbuf s) (delayed s) (pend_writes s) (pend_fix s) (outframes s) (cancelled s) (done_seen s) (ended s) (errored s) (ct_exited s) (cycle_pops s) (cycle_flushed s) (iter_heap s) (iter_dirty s) (retired s) (wlog s) (cycle_err s) (out_pending s) (matrix s) (final_done s).
+Definition cs_auto_mode (s : cst) v : cst := mkC (bars s) (heap s) (hsync s) (hlen s) (hdirty s) (iterating s) (popped s) (fifo s) (queue s) (pop_prio s) (id_count s) (pop_mode s) v (ph s) (cwbuf s) (delayed s) (pend_writes s) (pend_fix s) (outframes s) (cancelled s) (done_seen s) (ended s) (errored s) (ct_exited s) (cycle_pops s) (cycle_flushed s) (iter_heap s) (iter_dirty s) (retired s) (wlog s) (cycle_err s) (out_pending s) (matrix s) (final_done s).
+Definition cs_ph (s : cst) v : cst := mkC (bars s) (heap s) (hsync s) (hlen s) (hdirty s) (iterating s) (popped s) (fifo s) (queue s) (pop_prio s) (id_count s) (pop_mode s) (auto_mode s) v (cwbuf s) (delayed s) (pend_writes s) (pend_fix s) (outframes s) (cancelled s) (done_seen s) (ended s) (errored s) (ct_exited s) (cycle_pops s) (cycle_flushed s) (iter_heap s) (iter_dirty s) (retired s) (wlog s) (cycle_err s) (out_pending s) (matrix s) (final_done s).
+Definition cs_cwbuf (s : cst) v : cst := mkC (bars s) (heap s) (hsync s) (hlen s) (hdirty s) (iterating s) (popped s) (fifo s) (queue s) (pop_prio s) (id_count s) (pop_mode s) (auto_mode s) (ph s) v (delayed s) (pend_writes s) (pend_fix s) (outframes s) (cancelled s) (done_seen s) (ended s) (errored s) (ct_exited s) (cycle_pops s) (cycle_flushed s) (iter_heap s) (iter_dirty s) (retired s) (wlog s) (cycle_err s) (out_pending s) (matrix s) (final_done s).
+Definition cs_delayed (s : cst) v : cst := mkC (bars s) (heap s) (hsync s) (hlen s) (hdirty s) (iterating s) (popped s) (fifo s) (queue s) (pop_prio s) (id_count s) (pop_mode s) (auto_mode s) (ph s) (cwbuf s) v (pend_writes s) (pend_fix s) (outframes s) (cancelled s) (done_seen s) (ended s) (errored s) (ct_exited s) (cycle_pops s) (cycle_flushed s) (iter_heap s) (iter_dirty s) (retired s) (wlog s) (cycle_err s) (out_pending s) (matrix s) (final_done s).
+Definition cs_pend_writes (s : cst) v : cst := mkC (bars s) (heap s) (hsync s) (hlen s) (hdirty s) (iterating s) (popped s) (fifo s) (queue s) (pop_prio s) (id_count s) (pop_mode s) (auto_mode s) (ph s) (cwbuf s) (delayed s) v (pend_fix s) (outframes s) (cancelled s) (done_seen s) (ended s) (errored s) (ct_exited s) (cycle_pops s) (cycle_flushed s) (iter_heap s) (iter_dirty s) (retired s) (wlog s) (cycle_err s) (out_pending s) (matrix s) (final_done s).
+Definition cs_pend_fix (s : cst) v : cst := mkC (bars s) (heap s) (hsync s) (hlen s) (hdirty s) (iterating s) (popped s) (fifo s) (queue s) (pop_prio s) (id_count s) (pop_mode s) (auto_mode s) (ph s) (cwbuf s) (delayed s) (pend_writes s) v (outframes s) (cancelled s) (done_seen s) (ended s) (errored s) (ct_exited s) (cycle_pops s) (cycle_flushed s) (iter_heap s) (iter_dirty s) (retired s) (wlog s) (cycle_err s) (out_pending s) (matrix s) (final_done s).
+Definition cs_outframes (s : cst) v : cst := mkC (bars s) (heap s) (hsync s) (hlen s) (hdirty s) (iterating s) (popped s) (fifo s) (queue s) (pop_prio s) (id_count s) (pop_mode s) (auto_mode s) (ph s) (cwbuf s) (delayed s) (pend_writes s) (pend_fix s) v (cancelled s) (done_seen s) (ended s) (errored s) (ct_exited s) (cycle_pops s) (cycle_flushed s) (iter_heap s) (iter_dirty s) (retired s) (wlog s) (cycle_err s) (out_pending s) (matrix s) (final_done s).
+Definition cs_cancelled (s : cst) v : cst := mkC (bars s) (heap s) (hsync s) (hlen s) (hdirty s) (iterating s) (popped s) (fifo s) (queue s) (pop_prio s) (id_count s) (pop_mode s) (auto_mode s) (ph s) (cwbuf s) (delayed s) (pend_writes s) (pend_fix s) (outframes s) v (done_seen s) (ended s) (errored s) (ct_exited s) (cycle_pops s) (cycle_flushed s) (iter_heap s) (iter_dirty s) (retired s) (wlog s) (cycle_err s) (out_pending s) (matrix s) (final_done s).
+Definition cs_done_seen (s : cst) v : cst := mkC (bars s) (heap s) (hsync s) (hlen s) (hdirty s) (iterating s) (popped s) (fifo s) (queue s) (pop_prio s) (id_count s) (pop_mode s) (auto_mode s) (ph s) (cwbuf s) (delayed s) (pend_writes s) (pend_fix s) (outframes s) (cancelled s) v (ended s) (errored s) (ct_exited s) (cycle_pops s) (cycle_flushed s) (iter_heap s) (iter_dirty s) (retired s) (wlog s) (cycle_err s) (out_pending s) (matrix s) (final_done s).
+Definition cs_ended (s : cst) v : cst := mkC (bars s) (heap s) (hsync s) (hlen s) (hdirty s) (iterating s) (popped s) (fifo s) (queue s) (pop_prio s) (id_count s) (pop_mode s) (auto_mode s) (ph s) (cwbuf s) (delayed s) (pend_writes s) (pend_fix s) (outframes s) (cancelled s) (done_seen s) v (errored s) (ct_exited s) (cycle_pops s) (cycle_flushed s) (iter_heap s) (iter_dirty s) (retired s) (wlog s) (cycle_err s) (out_pending s) (matrix s) (final_done s).
+Definition cs_errored (s : cst) v : cst := mkC (bars s) (heap s) (hsync s) (hlen s) (hdirty s) (iterating s) (popped s) (fifo s) (queue s) (pop_prio s) (id_count s) (pop_mode s) (auto_mode s) (ph s) (cwbuf s) (delayed s) (pend_writes s) (pend_fix s) (outframes s) (cancelled s) (done_seen s) (ended s) v (ct_exited s) (cycle_pops s) (cycle_flushed s) (iter_heap s) (iter_dirty s) (retired s) (wlog s) (cycle_err s) (out_pending s) (matrix s) (final_done s).
+Definition cs_ct_exited (s : cst) v : cst := mkC (bars s) (heap s) (hsync s) (hlen s) (hdirty s) (iterating s) (popped s) (fifo s) (queue s) (pop_prio s) (id_count s) (pop_mode s) (auto_mode s) (ph s) (cwbuf s) (delayed s) (pend_writes s) (pend_fix s) (outframes s) (cancelled s) (done_seen s) (ended s) (errored s) v (cycle_pops s) (cycle_flushed s) (iter_heap s) (iter_dirty s) (retired s) (wlog s) (cycle_err s) (out_pending s) (matrix s) (final_done s).
+Definition cs_cycle_pops (s : cst) v : cst := mkC (bars s) (heap s) (hsync s) (hlen s) (hdirty s) (iterating s) (popped s) (fifo s) (queue s) (pop_prio s) (id_count s) (pop_mode s) (auto_mode s) (ph s) (cwbuf s) (delayed s) (pend_writes s) (pend_fix s) (outframes s) (cancelled s) (done_seen s) (ended s) (errored s) (ct_exited s) v (cycle_flushed s) (iter_heap s) (iter_dirty s) (retired s) (wlog s) (cycle_err s) (out_pending s) (matrix s) (final_done s).
+Definition cs_cycle_flushed (s : cst) v : cst := mkC (bars s) (heap s) (hsync s) (hlen s) (hdirty s) (iterating s) (popped s) (fifo s) (queue s) (pop_prio s) (id_count s) (pop_mode s) (auto_mode s) (ph s) (cwbuf s) (delayed s) (pend_writes s) (pend_fix s) (outframes s) (cancelled s) (done_seen s) (ended s) (errored s) (ct_exited s) (cycle_pops s) v (iter_heap s) (iter_dirty s) (retired s) (wlog s) (cycle_err s) (out_pending s) (matrix s) (final_done s).
+Definition cs_iter_heap (s : cst) v : cst := mkC (bars s) (heap s) (hsync s) (hlen s) (hdirty s) (iterating s) (popped s) (fifo s) (queue s) (pop_prio s) (id_count s) (pop_mode s) (auto_mode s) (ph s) (cwbuf s) (delayed s) (pend_writes s) (pend_fix s) (outframes s) (cancelled s) (done_seen s) (ended s) (errored s) (ct_exited s) (cycle_pops s) (cycle_flushed s) v (iter_dirty s) (retired s) (wlog s) (cycle_err s) (out_pending s) (matrix s) (final_done s).
+Definition cs_iter_dirty (s : cst) v : cst := mkC (bars s) (heap s) (hsync s) (hlen s) (hdirty s) (iterating s) (popped s) (fifo s) (queue s) (pop_prio s) (id_count s) (pop_mode s) (auto_mode s) (ph s) (cwbuf s) (delayed s) (pend_writes s) (pend_fix s) (outframes s) (cancelled s) (done_seen s) (ended s) (errored s) (ct_exited s) (cycle_pops s) (cycle_flushed s) (iter_heap s) v (retired s) (wlog s) (cycle_err s) (out_pending s) (matrix s) (final_done s).
+Definition cs_retired (s : cst) v : cst := mkC (bars s) (heap s) (hsync s) (hlen s) (hdirty s) (iterating s) (popped s) (fifo s) (queue s) (pop_prio s) (id_count s) (pop_mode s) (auto_mode s) (ph s) (cwbuf s) (delayed s) (pend_writes s) (pend_fix s) (outframes s) (cancelled s) (done_seen s) (ended s) (errored s) (ct_exited s) (cycle_pops s) (cycle_flushed s) (iter_heap s) (iter_dirty s) v (wlog s) (cycle_err s) (out_pending s) (matrix s) (final_done s).
+Definition cs_wlog (s : cst) v : cst := mkC (bars s) (heap s) (hsync s) (hlen s) (hdirty s) (iterating s) (popped s) (fifo s) (queue s) (pop_prio s) (id_count s) (pop_mode s) (auto_mode s) (ph s) (cwbuf s) (delayed s) (pend_writes s) (pend_fix s) (outframes s) (cancelled s) (done_seen s) (ended s) (errored s) (ct_exited s) (cycle_pops s) (cycle_flushed s) (iter_heap s) (iter_dirty s) (retired s) v (cycle_err s) (out_pending s) (matrix s) (final_done s).
+Definition cs_cycle_err (s : cst) v : cst := mkC (bars s) (heap s) (hsync s) (hlen s) (hdirty s) (iterating s) (popped s) (fifo s) (queue s) (pop_prio s) (id_count s) (pop_mode s) (auto_mode s) (ph s) (cwbuf s) (delayed s) (pend_writes s) (pend_fix s) (outframes s) (cancelled s) (done_seen s) (ended s) (errored s) (ct_exited s) (cycle_pops s) (cycle_flushed s) (iter_heap s) (iter_dirty s) (retired s) (wlog s) v (out_pending s) (matrix s) (final_done s).
+Definition cs_out_pending (s : cst) v : cst := mkC (bars s) (heap s) (hsync s) (hlen s) (hdirty s) (iterating s) (popped s) (fifo s) (queue s) (pop_prio s) (id_count s) (pop_mode s) (auto_mode s) (ph s) (cwbuf s) (delayed s) (pend_writes s) (pend_fix s) (outframes s) (cancelled s) (done_seen s) (ended s) (errored s) (ct_exited s) (cycle_pops s) (cycle_flushed s) (iter_heap s) (iter_dirty s) (retired s) (wlog s) (cycle_err s) v (matrix s) (final_done s).
+Definition cs_matrix (s : cst) v : cst := mkC (bars s) (heap s) (hsync s) (hlen s) (hdirty s) (iterating s) (popped s) (fifo s) (queue s) (pop_prio s) (id_count s) (pop_mode s) (auto_mode s) (ph s) (cwbuf s) (delayed s) (pend_writes s) (pend_fix s) (outframes s) (cancelled s) (done_seen s) (ended s) (errored s) (ct_exited s) (cycle_pops s) (cycle_flushed s) (iter_heap s) (iter_dirty s) (retired s) (wlog s) (cycle_err s) (out_pending s) v (final_done s).
+Definition cs_final_done (s : cst) v : cst := mkC (bars s) (heap s) (hsync s) (hlen s) (hdirty s) (iterating s) (popped s) (fifo s) (queue s) (pop_prio s) (id_count s) (pop_mode s) (auto_mode s) (ph s) (cwbuf s) (delayed s) (pend_writes s) (pend_fix s) (outframes s) (cancelled s) (done_seen s) (ended s) (errored s) (ct_exited s) (cycle_pops s) (cycle_flushed s) (iter_heap s) (iter_dirty s) (retired s) (wlog s) (cycle_err s) (out_pending s) (matrix s) v.
 
 Definition init_cst (popm autom delay : bool) : cst :=
   mkC [] [] false 0 false false [] [] [] (-2147483648) 0 popm autom Idle [] delay [] [] [] false false false false false
-      [] [] [] false [] [] false false [].
+      [] [] [] false [] [] false false [] false.
 
 Definition upd_bar (s : cst) (b : Z) (r : brec) : cst := cs_bars s (update b r (bars s)).
 
@@ -421,7 +423,7 @@ Definition step (s : cst) (e : ev) : option cst :=
             let buf := cwbuf s ++ List.rev rows in
             let next := if 0 <? n - pc then [ICuu (n - pc)] else [] in
             let s1 := cs_fifo s (fifo s ++ map (fun p => QPush (fst p) (snd p)) pushes) in
-            let s2 := cs_cwbuf (cs_ph s1 Idle) next in
+            let s2 := cs_final_done (cs_cwbuf (cs_ph s1 Idle) next) (final_done s || done_seen s) in
             if delayed s then Some s2
             else match buf with
                  | [] => Some s2                               (* nothing to write: no Write call *)
@@ -437,7 +439,9 @@ Definition step (s : cst) (e : ev) : option cst :=
       | [] => None
       end
   | CT_DONE => if serving s then Some (cs_done_seen s true) else None
-  | CT_EXIT => if done_seen s && is_idle s then Some (cs_ct_exited s true) else None
+  | CT_EXIT =>
+      (* auto refresh: serve renders at least one more cycle after done (unless a render error is latched) *)
+      if done_seen s && is_idle s && (negb (auto_mode s) || final_done s || errored s) then Some (cs_ct_exited s true) else None
   (* ---- heap manager goroutine: one request at a time ---- *)
   | HM_PUSH b sy hl cs cl =>
       if negb (ended s) && negb (iterating s) && (hl =? Z.of_nat (length (heap s))) && Bool.eqb cs (hsync s) && (cl =? hlen s)
